@@ -7,12 +7,11 @@ import iglib
 from gen import dbgen, hdrgen
 from props.c12 import workdir
 
-THEOREMS = ["IgVerif.C03.c03_hash_alphabet", "IgVerif.C03.c03_clean_valid", "IgVerif.C03.c03_assign_fresh", "IgVerif.C03.c03_assign_distinct",
+THEOREMS = ["IgVerif.C03.c03_hash_alphabet", "IgVerif.C03.c03_clean_valid", "IgVerif.C03.c03_assign_fresh", "IgVerif.C03.c03_assign_distinct", "IgVerif.C03.c03_assign_total",
             "IgVerif.Nm.assign_fresh", "IgVerif.Nm.assignAll_pairwise"]
 PARTIAL = [("the generated code is a well-formed translation unit",
             "there is no formal C++ in the tool set: compilability is decided per run by g++ -fsyntax-only over the option lattice (exploration), "
-            "the theorems cover validity and distinctness of the generated symbols"),
-           ("c03_assign_total (a free name is always found)", "the model's search is fuel-bounded; that the fuel suffices is checked on crafted collision families up to 40 signatures")]
+            "the theorems cover validity, distinctness and availability of the generated symbols")]
 
 IDENT = re.compile(r"^[A-Za-z_][A-Za-z0-9_]*$")
 
